@@ -28,8 +28,23 @@ TSAN_FLAGS = ("-std=gnu++17 -O1 -g -fsanitize=thread -DNDEBUG -DLIBFIVE_VERIF -f
 
 def run(replay=None):
     ck = common.Check("C14", level="proof")
+    rep = common.regen_translators()      # Gen/Statics_gen.v: the inventory of static-storage objects, from the source
     proof = ck.proof_obligations()
-    common.regen_translators()
+    ck.coverage["translators"] = rep
+    suspicious = []
+    try:
+        gen = open(os.path.join(common.COQ, "theories", "Gen", "Statics_gen.v")).read()
+        entries = re.findall(r's_file := "([^"]*)"; s_name := "([^"]*)"; s_scope := "([^"]*)"; s_kind := ([^|]*?) \|\}', gen)
+        ck.coverage["static_objects_inventoried"] = len(entries)
+        ck.coverage["static_objects"] = ["%s:%s (%s) %s" % e for e in entries]
+        allow = {("include/libfive/oracle/oracle_clause.hpp", "m"), ("include/libfive/tree/tree.hpp", "ptr")}
+        for f, n, sc, k in entries:
+            bad = (k.startswith("STable") and k != "STable true true") or (
+                k.startswith("SLocalInit") and k != "SLocalInit false true") or k in ("SMutableMember false", "SOther")
+            if bad and (f, n) not in allow:
+                suspicious.append("%s: %s (%s) is %s" % (f, n, sc, k))
+    except OSError:
+        pass
     ok_h, log_h, _ = cxxbuild.build_variant("tsan", TSAN_FLAGS, ["bin/threads"])
     if not ok_h:
         ck.violation("build", "thread harness does not build against /repo working tree (ThreadSanitizer variant)",
@@ -112,8 +127,11 @@ def run(replay=None):
             ck.violation(key, "ThreadSanitizer reports a data race between threads operating on shared trees",
                          {"scenarios": chunk, "report": rep[:3000]})
     if not proof["ok"]:
-        ck.violation("proof", "Properties_C14.v no longer checks", {"theorem_or_file": proof["file"],
-                     "log": proof["log"][-3000:]}, no_input=True)
+        ck.violation("proof", "Properties_C14.v no longer checks" + (
+                         ": the static-object inventory regenerated from the source has objects outside the proved sharing "
+                         "disciplines (C14_static_state_disciplined): " + "; ".join(suspicious) if suspicious else ""),
+                     {"theorem_or_file": proof["file"], "objects_outside_policy": suspicious,
+                      "log": proof["log"][-3000:]}, no_input=True)
     ck.coverage.update(stats)
     ck.coverage["evaluations"] = stats["operations"]
     ck.coverage["rule"] = ("random shared DAGs (12..31 nodes with sharing and remaps); threads {2,3,4,8,16}; 30..120 operations per thread "
